@@ -26,6 +26,7 @@ returns or raises ParsingException / MetaException, never a built-in error;
 '''
 import os
 import random
+import time
 
 from sim.engine import Engine, Log, Violation, stable_hash
 from sim.meter import SimStall, WallGuard, Meter
@@ -36,7 +37,7 @@ from engines import refstore, sqlgen
 
 BLOCK = 12          # statements per run
 GENERATED = 48      # seeded generated databases in the corpus
-KINDS = ('trunc', 'tok_del', 'tok_dup', 'tok_swap', 'tok_flip', 'chr_flip', 'stmt_drop', 'stmt_dup', 'stmt_swap', 'soup')
+KINDS = ('trunc', 'tok_del', 'tok_dup', 'tok_swap', 'tok_flip', 'chr_flip', 'stmt_drop', 'stmt_dup', 'stmt_swap', 'soup', 'redos')
 
 FLIP = {
     'number': ["'7'", '"00000000-0000-0000-0000-000000000007"', '7.5', 'TRUE', 'seven', '-7', '99999999999999999999999999'],
@@ -50,6 +51,12 @@ CHARS = "aZ0_'\"-;,()\n \t.\\\x00éR1"
 SOUP = ['CREATE', 'TABLE', 'INSERT', 'INTO', 'VALUES', 'ROP', 'REF_ID', 'FROM', 'TO', 'PHRASE', 'UNIQUE', 'INDEX', 'ON',
         'TRUE', 'FALSE', 'X', 'Y', 'Id', 'INTEGER', 'STRING', 'M', 'MC', '1', '1C', 'R1', 'R22', '(', ')', ',', ';', '-',
         '5', '0.5', "'s'", "''", '"00000000-0000-0000-0000-000000000001"', '-- c\n', '\n', 'I1']
+
+
+REDOS_OPEN = ["'", '"', '--', "INSERT INTO X VALUES ('", 'INSERT INTO X VALUES ("', 'INSERT INTO X VALUES (1.', 'CREATE ROP REF_ID R',
+              'INSERT INTO X VALUES (-', "CREATE TABLE X (A STRING); INSERT INTO X VALUES ('"]
+REDOS_UNIT = ['a', "''", '\\', '\\"', "'x", ' ', '\n', '1', '.', '-', '--', '\t', 'é', "''''"]
+REDOS_N = [12, 17, 22, 30, 40]
 
 
 def load_corpus(repo):
@@ -183,6 +190,7 @@ class LoadFaultEngine(Engine):
     name = 'loadfault'
     props = ('C12',)
     WALL_S = 60.0
+    SLOW_S = 2.0
 
     def setup(self, prop, tier):
         import xtuml
@@ -252,6 +260,16 @@ class LoadFaultEngine(Engine):
             ops.append({'k': 'soup', 's': start, 'w': [rng.randrange(len(SOUP)) for _ in range(n)]})
         if tier == 'quick' or second:
             rng.shuffle(ops)
+        if b % 16 == 0 and not second:
+            # pathological repetition probes (unterminated token + long run of one unit), shortest first,
+            # before everything else: they find a back-tracking pattern in seconds instead of minutes
+            redos = []
+            for n in REDOS_N:
+                for o in range(len(REDOS_OPEN)):
+                    for u in range(len(REDOS_UNIT)):
+                        if tier != 'quick' or (o + u + b // 16) % 3 == 0:
+                            redos.append({'k': 'redos', 's': start, 'o': o, 'u': u, 'n': n})
+            ops = redos + ops
         cfg = {'block': [start, end], 'file': cp.files[cp.stmts[start][0]][0],
                'route_seed': rng.getrandbits(32), 'meter_every': 7 if tier == 'quick' else 11,
                'p_ioerr': 0.02}
@@ -261,6 +279,13 @@ class LoadFaultEngine(Engine):
         s = Engine.sample(self, case)
         s['ops'] = s['ops'][:12]
         return s
+
+    def relax_for_confirmation(self, case):
+        case = Engine.relax_for_confirmation(self, case)
+        case = dict(case)
+        case['cfg'] = dict(case['cfg'])
+        case['cfg']['slow_s'] = case['cfg'].get('slow_s', self.SLOW_S) * 3
+        return case
 
     # ------------------------------------------------------------------- execute
     def fresh_pair(self, prefix_chunks):
@@ -330,6 +355,7 @@ class LoadFaultEngine(Engine):
                 metered = (step % cfg.get('meter_every', 7) == 0) and self.meter.available
                 budget = 60000 + 4000 * len(chunk)
                 outcome = None
+                t_in = time.perf_counter()
                 try:
                     if metered:
                         self.meter.start(budget)
@@ -368,6 +394,10 @@ class LoadFaultEngine(Engine):
                                     % (op, type(e).__name__, e, chunk[-200:]),
                                     'input-exception:%s' % type(e).__name__)
                 bump(probes, '%s_%s' % (op['k'], outcome))
+                dt = time.perf_counter() - t_in
+                if dt > cfg.get('slow_s', self.SLOW_S) and not metered:
+                    raise Violation('stall', 'fault %r: input of %d characters took %.1f s of wall time (budget %.1f s)'
+                                    % (op, len(chunk), dt, cfg.get('slow_s', self.SLOW_S)), 'stall:wall')
                 if outcome in ('rejected', 'ioerror'):
                     # as if the call had not happened
                     got = self.canon(L)
@@ -450,6 +480,9 @@ class LoadFaultEngine(Engine):
         stmt = cp.stmts[si][1]
         k = op['k']
         ctx = [cp.stmts[j][1] for j in range(max(start, si - 2), si)]
+        if k == 'redos':
+            damaged = REDOS_OPEN[op['o']] + REDOS_UNIT[op['u']] * op['n']
+            return ''.join(ctx[-1:]) + '\n' + damaged, damaged
         if k == 'soup':
             damaged = ' '.join(SOUP[i % len(SOUP)] for i in op['w'])
             return ''.join(ctx[-1:]) + '\n' + damaged, damaged
